@@ -245,7 +245,7 @@ def r2_status_dom(c, facts):
     # range mapping
     hs = c.anchor(R, 'oal_openapi::Builder::http_status_code')
     v2n = {}
-    for e, anc in hir_walk(hs.hir['body']):
+    for e, anc in [x for f2 in facts.family(hs) if f2.hir for x in hir_walk(f2.hir['body'])]:
         if e['k'] == 'match' and 'HttpStatusRange' in e['scrut']['ty']:
             for arm in e['arms']:
                 vs = pat_variants(arm['pat'])
@@ -455,7 +455,9 @@ def r6_operation_ids(c, facts):
     SUB = {'filter', 'take', 'skip', 'take_while', 'skip_while', 'filter_map', 'step_by', 'split_last', 'split_first', 'rsplit', 'last', 'nth', 'get', 'windows', 'chunks'}
     narrowed = set()
     seen_path = False
-    for f2 in [xi] + facts.closures_of(xi):
+    for f2 in facts.family(xi):
+        if not f2.mir or f2.qname.endswith(('::uri_segment_label', '::method_label')):
+            continue
         for b, t in f2.calls():
             info = callee_of(t)
             if not info:
@@ -472,7 +474,7 @@ def r6_operation_ids(c, facts):
         c.bad(R, 'xfer_id:segments-narrowed:%s' % ','.join(sorted(narrowed)), 'xfer_id drops or selects path segments (%s) before labelling them: two different paths get the same operationId' % ', '.join(sorted(narrowed)))
     else:
         c.ok(R, {'xfer_id': 'every segment of uri.path is labelled'})
-    if P.call_blocks(xi, 'Builder::method_label'):
+    if any(P.call_blocks(f2, 'Builder::method_label') for f2 in facts.family(xi) if f2.mir):
         c.ok(R, {'xfer_id': 'prefixed with the method label'})
     else:
         c.bad(R, 'xfer_id:no-method-prefix', 'the operationId no longer starts with the method: two methods of one path collide')
